@@ -181,6 +181,8 @@ def program (tool : String) (p : Json) (nsrc : Nat) (fuel : Nat) : Except String
     pure (.val (Impl.reduce 0 ini 0 fuel) (Std.reduce 0 ini 0 fuel))
   | "list" => pure (.val (Impl.list 0 fuel) (do pure (.lst (← Std.collectAll 0 [] fuel))))
   | "tuple" => pure (.val (Impl.tuple 0 fuel) (do pure (.tup (← Std.collectAll 0 [] fuel))))
+  | "set" => pure (.val (Impl.set 0 fuel) (Std.set 0 fuel))
+  | "dict" => pure (.val (Impl.dict 0 fuel) (Std.dict 0 fuel))
   | "sorted" => pure (.val (Impl.sorted (optFn p "key") (boolOr p "reverse" false) 0 fuel)
                            (Std.sorted (optFn p "key") (boolOr p "reverse" false) 0 fuel))
   | "nlargest" => pure (.val (Impl.nBest true (natOr p "n" 0) (optFn p "key") 0 fuel)
